@@ -712,7 +712,11 @@ class CallMixin:
                         defaults[p.arg] = d
                 for nm in names:
                     if nm in contract.params:
-                        env[nm] = self.fresh(contract.params[nm], nm)
+                        self._entry_phase = True      # objects of the pre-state: birth <= 0 (fresh() is false for them)
+                        try:
+                            env[nm] = self.fresh(contract.params[nm], nm)
+                        finally:
+                            self._entry_phase = False
                     elif nm in defaults:
                         env[nm] = self.ev(defaults[nm])
                     else:
